@@ -10,7 +10,11 @@ TInit == Init /\ l = 1 /\ div = NoDiv /\ devAll = {} /\ taint = FALSE /\ TLCSet(
 
 Has(ev, f) == f \in DOMAIN ev
 (* JSON arrays standing for sets are compared as sets *)
-Norm(o) == [o EXCEPT !.utxo = Range(@), !.pool = Range(@)]
+(* poolseq (the order in which the pool yields its transactions) is not part of the compared record: it is judged by
+   SeqOK - every transaction comes after the pending transactions whose outputs or key versions it consumes *)
+Norm(o) == [f \in DOMAIN o \ {"poolseq"} |-> IF f \in {"utxo", "pool", "poold"} THEN Range(o[f]) ELSE o[f]]
+SeqOK(o) == "poolseq" \notin DOMAIN o \/ \A i, j \in DOMAIN o.poolseq :
+               (i < j /\ o.poolseq[i] \in AllTxs /\ o.poolseq[j] \in AllTxs) => ~DependsOn(o.poolseq[i], o.poolseq[j])
 FaultAct(ev) ==
   CASE ev.op = "walk"    -> IF ev.fault < WalkBlockWrites(ev.d, ev.prune) THEN WalkFault(ev.d, ev.prune, ev.fault)
                             ELSE Walk(ev.d, ev.prune, Range(ev.obs.pool), <<>>)   \* a re-admission write failed: that tx is dropped
@@ -80,7 +84,7 @@ TStep ==
                                      exp |-> Obs, act |-> Trace[l - 1].cuts[1].obs, which |-> "cut"]
                ELSE IF ev.op = "reset" \/ Tainted \/ taint' THEN NoDiv
                ELSE LET r == hist'[Len(hist')].res
-                        okLive == Norm(ev.obs) = Obs'
+                        okLive == Norm(ev.obs) = Obs' /\ SeqOK(ev.obs)
                         okReopen == Has(ev, "robs") => Norm(ev.robs) = Obs'
                         okCuts == WalkCutsOK(ev)
                         okMiner == MinedOrderOK(ev) /\ ReplicaOK(ev) IN
